@@ -361,6 +361,7 @@ func runC14(r *Report) {
 	}
 	ruleTombstoneSemantics(r)
 	ruleValueBuffersImmutable(r)
+	ruleSentinelProducible(r, "memstore", "simpledb")
 	for _, k := range []string{"memstore.MemStore.Get", "memstore.MemStore.Contains", "memstore.MemStore.IsTombstoned", "memstore.deleteInternal", "memstore.upsertInternal", "memstore.MemStore.Tombstone"} {
 		if fn := p.Func(k); fn != nil {
 			ruleMemLookup(r, fn)
